@@ -1,5 +1,6 @@
 import Setec.Driver.Util
 import Setec.Spec.DBMon
+import Setec.Model.DBText
 /- Driver for the `acl` and `db` trace families. -/
 namespace Setec.Driver
 open Std Setec.KV Setec.DB Setec.Acl Setec.DBMon
@@ -188,7 +189,24 @@ def dbLine (st : DBRun) (lineNo : Nat) (line : String) : Except String (DBRun ×
           -- whenever the code acknowledged the specified result) is what a restart must find
           let d := if showRes mres == get "res" && parseMem ro != some (memOf mkv) then
               [s!"PROPFAIL C03 acknowledged_survives {tag} op={get "op"} n={get "n"} res={get "res"} reopen={ro} spec={showState mkv}"] else []
-          a ++ b ++ c ++ d
+          -- the clear document as text: reads back in the documented layout, renders to the same
+          -- bytes, and decodes to the state on disk
+          let e := match lookup fs "clear" with
+            | none => []
+            | some ch =>
+              match (unhex ch).bind (fun b => String.fromUTF8? (ByteArray.mk b.toArray)) with
+              | none => [s!"PROPFAIL C03 clear_document_layout {tag} not UTF-8 text"]
+              | some txt =>
+                let chars := (txt.replace "\"Secrets\":null" ("\"Secrets\":" ++ "{" ++ "}")).toList
+                match DBText.readTree chars with
+                | none => [s!"PROPFAIL C03 clear_document_layout {tag} clear={ch.take 400}"]
+                | some t =>
+                  (if DBText.renderTree t == chars then [] else [s!"DIVERGE dbtext_bytes {tag} code={ch.take 300} model={(hexStr (String.ofList (DBText.renderTree t))).take 300}"]) ++
+                  (match Codec.decode t with
+                   | some sm => if showState { secrets := sm, gen := 0, disk := sm } == showState post then [] else
+                       [s!"DIVERGE dbtext_decode {tag} decoded={showState { secrets := sm, gen := 0, disk := sm }} disk={diskS}"]
+                   | none => [s!"PROPFAIL C03 clear_document_layout {tag} version keys are not decimal numbers"])
+          a ++ b ++ c ++ d ++ e
       let key := s!"{get "op"}:{resClass res}:c{if (get "c") == "0" then "su" else "r"}:a{get "aok"}s{get "sok"}:{if stateEq o.post o.pre then "same" else "chg"}"
       let st' := { st with cur := post, steps := st.steps + 1,
                            fails := st.fails + failed.length + c03.length + out0.length,
